@@ -34,7 +34,7 @@ pub const FUT0: FutS = FutS {
 #[derive(Clone, Copy)]
 pub struct WEntry {
     pub is_send: bool,
-    /// index of the future (send: sf[i], receive: rf[i]; 2 = the stream's inner future)
+    /// index of the future (send: sf[i], receive: rf[i]; 3 = the stream's inner future)
     pub fut: u8,
 }
 
@@ -47,8 +47,8 @@ pub struct Spec {
     pub wlen: usize,
     pub sc: u32,
     pub rc: u32,
-    pub sf: [FutS; 2],
-    pub rf: [FutS; 3],
+    pub sf: [FutS; 3],
+    pub rf: [FutS; 4],
     /// tags destroyed by the channel itself (close)
     pub destroyed: [bool; 12],
     /// wakes the model expects per waker id
@@ -75,8 +75,8 @@ impl Spec {
             wlen: 0,
             sc: 1,
             rc: 1,
-            sf: [FUT0; 2],
-            rf: [FUT0; 3],
+            sf: [FUT0; 3],
+            rf: [FUT0; 4],
             destroyed: [false; 12],
             wakes: [0; 4],
             stream_ended: false,
@@ -360,7 +360,7 @@ impl Spec {
             }
             A_ARECV_START | A_ARECV_POLL | A_STREAM_START | A_STREAM_POLL => {
                 let stream = a.k == A_STREAM_START || a.k == A_STREAM_POLL;
-                let f = if stream { 2 } else { f };
+                let f = if stream { 3 } else { f };
                 if a.k == A_ARECV_START || a.k == A_STREAM_START {
                     self.rf[f] = FutS {
                         st: F_NEW,
@@ -418,7 +418,7 @@ impl Spec {
                 }
             }
             A_ARECV_DROP | A_STREAM_DROP => {
-                let f = if a.k == A_STREAM_DROP { 2 } else { f };
+                let f = if a.k == A_STREAM_DROP { 3 } else { f };
                 if self.rf[f].st == F_WAIT {
                     self.remove_wq(false, f as u8);
                 }
